@@ -192,10 +192,14 @@ struct Exec {
             uint8_t *p = (uint8_t *)ub.ptr() + ub.pos[k];
             for (int b = 0; b < ub.esize; b++) touched[ub.lead + ub.pos[k] + b] = 1;
             if (!c.o.check_data || k >= a.estate.size()) continue;
-            if (a.estate[k] == 0) {
+            bool ovl = (a.estate[k] & 0x10) != 0; int est = a.estate[k] & 0x0f;
+            if (est == 0) {
+                bool untouched = true; for (int b = 0; b < ub.esize; b++) if (p[b] != 0xA5) untouched = false;
+                if (ovl && untouched) fail("read-value", opi, "element #" + std::to_string(k) + " (linear index " + std::to_string(a.elems[k]) + ") was not delivered: buffer untouched; the element is also read by another iget request completed by the same wait (overlapping-iget) [" + acc_str(a) + "]");
                 long long got; bool ok = read_mem(p, a.memtype, got);
+                if ((!ok || got != a.values[k]) && ovl) fail("read-value", opi, "element #" + std::to_string(k) + " (linear index " + std::to_string(a.elems[k]) + ") was not delivered correctly (got " + std::to_string(got) + ", expected " + std::to_string(a.values[k]) + "); the element is also read by another iget request completed by the same wait (overlapping-iget) [" + acc_str(a) + "]");
                 if (!ok || got != a.values[k]) fail("read-value", opi, "element #" + std::to_string(k) + " (linear index " + std::to_string(a.elems[k]) + "): got " + (ok ? std::to_string(got) : std::string("non-integral/garbage")) + " expected " + std::to_string(a.values[k]) + " [" + acc_str(a) + "] buffer=" + hexdump(ub));
-            } else if (a.estate[k] == 1 && v) {
+            } else if (est == 1 && v) {
                 uint8_t want[8]; fill_mem(want, v->type, v->has_fillv, v->fillv);
                 if (memcmp(p, want, ub.esize)) fail("read-fill", opi, "element #" + std::to_string(k) + " (linear index " + std::to_string(a.elems[k]) + ") of a fill-mode variable never written does not read as the fill value");
             }
@@ -419,8 +423,9 @@ void Exec::do_wait(Op &op, int opi, bool cancel) {
     sim::set_in_lib(true);
     int rc = cancel ? ncmpi_cancel(ncid, num, idp, stp) : op.coll ? ncmpi_wait_all(ncid, num, idp, stp) : ncmpi_wait(ncid, num, idp, stp);
     sim::set_in_lib(false);
-    rc_check(op, opi, rc, w.exp_rc, false);
+    rc_check(op, opi, rc, w.exp_rc, cancel && w.exp_rc != NC_NOERR);
     c.res->rcs[r][opi].statuses = st;
+    if (w.exp_rc != NC_NOERR) return;
     if (!w.active) return;
     // which slots completed
     std::vector<int> done;
